@@ -184,28 +184,29 @@ theorem natHexF_two {v : Nat} (h1 : 16 ≤ v) (h2 : v < 256) : natHexF 20 v = [v
   have b : v / 16 < 16 := by omega
   simp [natHexF, a, b]
 
-theorem hex_str (s : Str) (h : ∀ c ∈ s, 16 ≤ c.toNat ∧ c.toNat < 256) :
+/-- after fix dfad397 (`"{:02X}"` per character) every character below 256 gives exactly one byte;
+the old hypothesis `16 ≤ c.toNat` is gone -/
+theorem hex_str (s : Str) (h : ∀ c ∈ s, c.toNat < 256) :
     (Value.str s).hex? = some ((s.map Char.toNat).flatMap byteHex) := by
   simp only [Value.hex?, Option.some.injEq]
   induction s with
   | nil => rfl
   | cons c s ih =>
     have hc := h c (by simp)
-    simp only [List.flatMap_cons, List.map_cons, natHexF_two hc.1 hc.2, byteHex]
+    simp only [List.flatMap_cons, List.map_cons, fmtHex_byte hc]
     rw [ih (fun x hx => h x (by simp [hx]))]
-    rfl
 
-theorem hexLen_str (s : Str) (h : ∀ c ∈ s, 16 ≤ c.toNat ∧ c.toNat < 256) :
+theorem hexLen_str (s : Str) (h : ∀ c ∈ s, c.toNat < 256) :
     (Value.str s).hexLen? = some (2 * s.length) := by
   simp only [Value.hexLen?, hex_str s h, Option.map_some, length_flatMap_byteHex, List.length_map]
 
-theorem byteLen_str (s : Str) (h : ∀ c ∈ s, 16 ≤ c.toNat ∧ c.toNat < 256) :
+theorem byteLen_str (s : Str) (h : ∀ c ∈ s, c.toNat < 256) :
     (Value.str s).byteLen? = some s.length := by
   simp [Value.byteLen?, hexLen_str s h]
 
-theorem emitValue_str (s : Str) (h : ∀ c ∈ s, 16 ≤ c.toNat ∧ c.toNat < 256) :
+theorem emitValue_str (s : Str) (h : ∀ c ∈ s, c.toNat < 256) :
     emitValue (.str s) = some (s.map Char.toNat) := by
-  have := emitHex_byteHex (s.map Char.toNat) (by simpa using fun c hc => (h c hc).2) []
+  have := emitHex_byteHex (s.map Char.toNat) (by simpa using fun c hc => h c hc) []
   simp only [emitValue, hexLen_str s h, hex_str s h]
   simpa using this
 
